@@ -37,6 +37,10 @@ func OracleLinearizable(prefix string) Oracle {
 		if r.AfterRun == nil {
 			return nil
 		}
+		t0 := sp.T0
+		if t0 == 0 {
+			t0 = 1300 * ms
+		}
 		base := func() *refmodel.RefLockDB {
 			m := refmodel.New()
 			for _, st := range sp.Setup {
@@ -50,13 +54,15 @@ func OracleLinearizable(prefix string) Oracle {
 					m.Unlock("s", toRef(&c))
 				}
 			}
+			// holds of the setup that ended by time before the exploration instant
+			for _, e := range r.Events {
+				if e.T < t0 && e.Result == refmodel.EXPRIED && e.Cmd == 1 {
+					_, _ = m.Expire(e.Key[15], e.LockId[15], e.Req)
+				}
+			}
 			return m
 		}
 		// observed outcome: replies produced during the exploration instant + state right after it
-		t0 := sp.T0
-		if t0 == 0 {
-			t0 = 1300 * ms
-		}
 		var obs []string
 		for _, e := range r.Events {
 			if e.T >= t0 && e.T < t0+100*ms {
